@@ -2,17 +2,10 @@
    bit 0 = model differs from the implementation's observation; bit k = guard conjunct k is false. *)
 From PG Require Import Lib.Strs Corr.Driver Model.Sites Model.Diff.
 
-(* ---- det: no model of the whole generator; only the F09a guard is evaluated on the document's operations *)
-Definition op_abs := (list (str * str) * list param * list str)%type.
-Definition det_guard (ops : list op_abs) : bool :=
-  forallb (fun o => match o with (tbl, ps, vs) => guard_F09a (san_of tbl) ps vs end) ops.
-Definition run_det (cases : list (list op_abs * unit)) : list N :=
-  report (fun _ _ => true) (fun _ => tt) (fun ops => [det_guard ops]) cases.
-
 (* ---- diff / e2e: _show_diffs *)
 Definition run_diff (cases : list ((tree * tree) * bool)) : list N :=
   report Bool.eqb (fun c => show_diffs (fst c) (snd c))
-         (fun c => [guard_F09b (fst c) (snd c); guard_F09f (fst c) (snd c); guard_F09g (fst c) (snd c)]) cases.
+         (fun c => [guard_F09g (fst c) (snd c)]) cases.
 
 (* ---- modes: force run then non-force rerun.  Operation ids of this stream are snake_case identifiers on
    which sanitize_method_name is the identity (asserted by the harness). *)
@@ -27,14 +20,14 @@ Definition run_modes (cases : list ((gen_input * registry) * (bool * list path))
   report (fun a b => Bool.eqb (fst a) (fst b) && same_paths (snd a) (snd b)) modes_model
          (fun c => [guard_F09c (fst c); guard_F09d (fst c) (snd c); guard_F09e id_san (fst c)]) cases.
 
-(* ---- site1 *)
+(* ---- site1: the path template lists the variables in [o1]; the set is iterated in order o1, then in order o2 *)
 Definition site1_in := (list (str * str) * list param * list str * list str)%type.
 Definition strs_eqb := list_eqb str_eqb.
 Definition run_site1 (cases : list (site1_in * (list str * list str))) : list N :=
   report (pair_eqb strs_eqb strs_eqb)
          (fun c => match c with (tbl, ps, o1, o2) =>
-                     (signature_order (san_of tbl) ps o1, signature_order (san_of tbl) ps o2) end)
-         (fun c => match c with (tbl, ps, o1, _) => [guard_F09a (san_of tbl) ps o1] end) cases.
+                     (signature_order (san_of tbl) ps o1 o1, signature_order (san_of tbl) ps o1 o2) end)
+         (fun _ => []) cases.
 
 (* ---- site2 *)
 Definition site2_in := (list str * list (str * action) * collector * list str * list str)%type.
